@@ -574,6 +574,71 @@ INVALID = [
     ("invalid-name", ["type Query { __a: Int }"]),
     ("invalid-name", [Q + "type __T { a: Int }\nextend type Query { t: __T }"]),
 ]
+# duplicates that only arise THROUGH extensions (base+ext, ext+ext, inside one ext block), for every element kind
+# with a uniqueness rule; one-step (build_schema) and two-step (extend_schema) forms
+_S = "schema { query: Query }\n" + Q
+_M = "type M1 { a: Int }\ntype M2 { a: Int }\n"
+for _op in ("mutation", "subscription"):
+    INVALID += [
+        ("duplicate-operation-type-via-extension", [_S + _M + "extend schema { %s: M1 }\nextend schema { %s: M2 }" % (_op, _op)]),
+        ("duplicate-operation-type-via-extension", [_S + _M + "extend schema { %s: M1 }\nextend schema { %s: M1 }" % (_op, _op)]),
+        ("duplicate-operation-type-via-extension", [_S + _M + "extend schema { %s: M1 %s: M2 }" % (_op, _op)]),
+        ("duplicate-operation-type-via-extension", [_S + _M, "extend schema { %s: M1 }\nextend schema { %s: M2 }" % (_op, _op)]),
+        ("duplicate-operation-type-via-extension", [_S + _M, "extend schema { %s: M1 %s: M2 }" % (_op, _op)]),
+        ("duplicate-operation-type-via-extension", ["schema { query: Query %s: M1 }\n" % _op + Q + _M + "extend schema { %s: M2 }" % _op]),
+        ("duplicate-operation-type-via-extension", ["schema { query: Query %s: M1 }\n" % _op + Q + _M, "extend schema { %s: M2 }" % _op]),
+        # the base root is implied by its default name
+        ("duplicate-operation-type-via-extension", [Q + "type %s { a: Int }\n" % _op.capitalize() + _M, "extend schema { %s: M1 }" % _op]),
+    ]
+INVALID += [
+    ("duplicate-operation-type-via-extension", [_S + _M + "extend schema { query: M1 }"]),
+    ("duplicate-operation-type-via-extension", [_S + _M + "extend schema { mutation: M1 }\nextend schema { subscription: M1 subscription: M2 }"]),
+]
+_T = Q + "interface I { a: Int }\ntype T implements I { a: Int }\nenum E { A }\nunion U = Query\ninput In { a: Int }\nextend type Query { t: T e: E u: U f(i: In): Int }\n"
+_DUPS = [
+    # (ext+ext, inside one ext block)
+    ("extend type T { b: Int }\nextend type T { b: Int }", "extend type T { b: Int b: Int }"),
+    ("extend interface I { b: Int }\nextend interface I { b: Int }", "extend interface I { b: Int b: Int }"),
+    ("extend input In { b: Int }\nextend input In { b: Int }", "extend input In { b: Int b: Int }"),
+    ("extend enum E { B }\nextend enum E { B }", "extend enum E { B B }"),
+    ("extend union U = T\nextend union U = T", "extend union U = T | T"),
+    ("interface J { a: Int }\nextend type T implements J\nextend type T implements J", "interface J { a: Int }\nextend type T implements J & J"),
+    ("extend type T { b(x: Int): Int }\nextend type T { b(y: Int): Int }", "extend type T { b(x: Int, x: Int): Int }"),
+]
+for _two, _one in _DUPS:
+    for _e in (_two, _one):
+        INVALID.append(("duplicate-member-via-extension", [_T + _e]))
+        INVALID.append(("duplicate-member-via-extension", [_T, _e]))
+INVALID += [
+    # base + extension, remaining kinds
+    ("duplicate-member-via-extension", [_T + "extend input In { a: String }"]),
+    ("duplicate-member-via-extension", [_T, "extend union U = Query"]),
+    ("duplicate-member-via-extension", [_T, "extend type T implements I"]),
+    ("duplicate-member-via-extension", [_T, "extend interface I { a: Int }"]),
+    # two extensions adding the same member to a NEW type (defined in the extension document)
+    ("duplicate-member-via-extension", [_T, "type N { a: Int }\nextend type N { b: Int }\nextend type N { b: Int }\nextend type Query { n: N }"]),
+    ("duplicate-member-via-extension", [_T, "type N { a: Int }\nextend type N { a: Int }\nextend type Query { n: N }"]),
+    ("duplicate-member-via-extension", [_T, "enum N { A }\nextend enum N { B }\nextend enum N { B }\nextend type Query { n: N }"]),
+    ("duplicate-member-via-extension", [_T + "type N { a: Int }\nextend type N { b: Int }\nextend type N { b: Int }\nextend type Query { n: N }"]),
+    # duplicates inside a definition, remaining kinds
+    ("duplicate-member", [Q + "union U = Query | Query\nextend type Query { u: U }"]),
+    ("duplicate-member", [Q + "interface I { a: Int }\ntype T implements I & I { a: Int }\nextend type Query { t: T }"]),
+    ("duplicate-argument", [Q, "directive @d(x: Int, x: Int) on FIELD"]),
+    ("duplicate-argument", [Q, "extend type Query { b(x: Int, x: Int): Int }"]),
+]
+# extensions of the wrong kind applied to scalars (custom and specified)
+for _ek, _ext in (
+    ("type", "extend type %s { b: Int }"),
+    ("type", "extend type %s implements I"),
+    ("interface", "extend interface %s { b: Int }"),
+    ("union", "extend union %s = Query"),
+    ("enum", "extend enum %s { B }"),
+    ("input", "extend input %s { b: Int }"),
+):
+    for _name, _def in (("X", "scalar X\nextend type Query { x: X }\n"), ("Int", ""), ("String", ""), ("ID", ""), ("Boolean", "")):
+        _label = "extension-of-wrong-kind" if _name == "X" else "extension-of-specified-scalar"
+        INVALID.append((_label, [Q + "interface I { a: Int }\n" + _def + _ext % _name]))
+        INVALID.append((_label, [Q + "interface I { a: Int }\n" + _def, _ext % _name]))
 # every (extension kind, target kind) mismatch
 _DEF = {
     "type": "type X { a: Int }",
